@@ -1,12 +1,13 @@
 (* C07 -- directory hashes follow the compositional definition.  Statements only.
    dirhash = what create records (<directoryhash>/<roothash>) and verify -dh recomputes; vhash = the compositional
    definition on a tree without ignored entries; prune removes the ignored entries.
-   PARTIAL: proved are definition-over-exactly-the-non-ignored-entries, independence from the enumeration order,
-   the empty directory, and name-independence of the content hash at any depth.  Sensitivity ("changes whenever a
-   descendant's content / a name changes") is a statement about collisions of the hash primitive and is exercised by
-   the metamorphic correspondence runs, not proved here. *)
+   Proved: definition-over-exactly-the-non-ignored-entries, independence from the enumeration order, the empty
+   directory, name-independence of the content hash at any depth, and content SENSITIVITY as a reduction: changing the
+   content of one file at any depth changes the content hash of every enclosing folder or exhibits an explicit
+   collision of the primitive (collision freedom is never assumed).  PARTIAL: that the structure hash binds names
+   (rename => structure hash changes) is exercised by the metamorphic correspondence runs only. *)
 From Coq Require Import Permutation.
-From MHL Require Import Model.Create Proofs.BaseFacts Proofs.DirHashFacts.
+From MHL Require Import Model.Commands Proofs.BaseFacts Proofs.CodecFacts Proofs.DirHashFacts Proofs.SensFacts.
 
 Theorem C07_is_definition_over_visible_entries : forall Hb matches C spec f t p,
   dirhash Hb matches C spec f p t = vhash Hb f (prune matches C spec p t).
@@ -34,11 +35,25 @@ Theorem C07_content_rename_invariant : forall Hb f t t' c s c' s',
 Proof. intros Hb. exact (content_rename_invariant Hb (fun _ _ => false)). Qed.
 Print Assumptions C07_content_rename_invariant.
 
+(* the content hash changes whenever the content of any descendant file changes -- or a collision is exhibited; premise:
+   the primitive returns digests of the format's width (satisfiable: toyHb below; hashlib / xxhash: sampled by C01) *)
+Theorem C07_content_sensitive : forall Hb, (forall f b, Forall is_byte (Hb f b) /\ length (Hb f b) = width f) ->
+  forall f t t' c s c' s', differ1 t t' -> vhash Hb f t = Some (c, s) -> vhash Hb f t' = Some (c', s') -> c = c' -> collision Hb f.
+Proof. intros Hb Hw f t t' c s c' s'. exact (vhash_content_sensitive Hb (fun _ _ => false) Hw f t t' c s c' s'). Qed.
+Print Assumptions C07_content_sensitive.
+Theorem C07_digest_lists_injective : forall Hb, (forall f b, Forall is_byte (Hb f b) /\ length (Hb f b) = width f) ->
+  forall f ds ds', Forall (isd Hb f) ds -> Forall (isd Hb f) ds' ->
+  hash_of_hash_list Hb f ds = hash_of_hash_list Hb f ds' -> Permutation ds ds' \/ collision Hb f.
+Proof. intros Hb Hw. exact (hash_of_hash_list_inj Hb (fun _ _ => false) Hw). Qed.
+Print Assumptions C07_digest_lists_injective.
+
 (* non-vacuity: with a toy primitive of the right widths the hashes are defined, renaming keeps the content hash and
    changes the structure hash *)
 Definition toyHb (f : fmt) (b : bytes) : bytes := be_of_N (width f) (fold_left N.add b 7%N).
 Definition tA : vt := VD [([97%N], VF [1%N; 2%N]); ([98%N], VD [([99%N], VF [3%N])])].
 Definition tB : vt := VD [([120%N], VD [([121%N], VF [3%N])]); ([122%N], VF [1%N; 2%N])].
+Example C07_width_premise_satisfiable : forall f b, Forall is_byte (toyHb f b) /\ length (toyHb f b) = width f.
+Proof. intros f b. unfold toyHb. split; [apply be_of_N_bytes|apply be_of_N_length]. Qed.
 Example C07_renamed_example : renamed tA tB.
 Proof.
   unfold tA, tB. apply ren_dir. eapply rk_trans; [|apply rk_swap].
